@@ -53,6 +53,7 @@ def build(guards, labelset, kind, pos, engine):
                                   "pos": pos, "engine": engine, "expect_run": run})
     if bgdir:
         c["bgdir"] = bgdir
+        c["bg_expect"] = 1 if run else 0
     return c
 
 
